@@ -13,7 +13,6 @@ import (
 	"sort"
 	"strings"
 	"sync"
-	"time"
 
 	"github.com/thomasjungblut/go-sstables/recordio"
 	"github.com/thomasjungblut/go-sstables/simpledb"
@@ -37,7 +36,7 @@ func init() {
 				n = 360
 			}
 			return fw.Meta{N: n, Level: "exploration", Chunk: 1, CaseTimeoutS: 600, MinNT: 9, Workers: 6,
-				Rule:        "one case = one run of a workload in the race-detector build (case index mod 3: 0 = one SimpleDB handle, 8 goroutines of Get/Put/Delete on own and shared keys while size-triggered rotations, the background compactor (50us..1ms ticker) and forced rotations run; 1 = one SSTableReader with the default index loader, 8..16 goroutines of Get/Contains/ScanRange/ScanStartingAt with every result compared with the precomputed sequential answer; 2 = one memory-mapped RecordIO reader, 8..16 goroutines of ReadNextAt/SeekNext at random offsets compared with the sequential answers), GOMAXPROCS from {2,4,16} by case. Oracles: zero race-detector reports touching go-sstables or the harness, no panic / abnormal exit, zero result mismatches. Non-trivial: the run completed >= 1000 concurrent calls; distinct by (workload, seed, GOMAXPROCS)",
+				Rule:        "one case = one run of a workload in the race-detector build (case index mod 3: 0 = one SimpleDB handle, 8 goroutines of Get/Put/Delete on own and shared keys while size-triggered rotations, the background compactor (50us..1ms ticker) and forced rotations run; 1 = one SSTableReader with the default index loader, 8..16 goroutines of Get/Contains/ScanRange/ScanStartingAt with every result compared with the precomputed sequential answer; 2 = one memory-mapped RecordIO reader, 8..16 goroutines of ReadNextAt/SeekNext at random offsets compared with the sequential answers), GOMAXPROCS from {2,4,16} by case. Oracles: zero race-detector reports touching go-sstables or the harness, no panic / abnormal exit, zero result mismatches. Every goroutine performs a fixed number of calls (no time boxing). Non-trivial: the run completed >= 1000 concurrent calls; distinct by (workload, seed, GOMAXPROCS)",
 				MinObs:      map[string]int64{"race_builds_run": 9, "concurrent_calls": 100000, "db_flushes_during_calls": 200, "db_compactions_during_calls": 20},
 				Assumptions: []string{"the Go race detector only reports races that happened in the observed execution", "SSTableReader.Scan is not part of the documented concurrent surface (the statement lists Get/Contains/range scans)"},
 			}
@@ -69,11 +68,11 @@ func runC18(c *fw.Case) {
 	work := filepath.Join(c.Dir, "w")
 	_ = os.MkdirAll(work, 0755)
 	env := []string{"GORACE=halt_on_error=0 log_path=" + logBase + " history_size=2", fmt.Sprintf("GOMAXPROCS=%d", procs)}
-	dur := "600"
+	dur := "1200"
 	if c.Thorough() {
-		dur = "1500"
+		dur = "6000"
 	}
-	res := fw.RunSub(race, 400, env, c.Dir, "c18work", "-kind", kind, "-dir", work, "-seed", fmt.Sprint(seed), "-ms", dur)
+	res := fw.RunSub(race, 400, env, c.Dir, "c18work", "-kind", kind, "-dir", work, "-seed", fmt.Sprint(seed), "-calls", dur)
 	c.Obs("race_builds_run", 1)
 	if res.TimedOut {
 		c.Inconclusive("race workload watchdog expired")
@@ -180,16 +179,16 @@ func c18Work(args []string) int {
 	kind := fs.String("kind", "db", "")
 	dir := fs.String("dir", "", "")
 	seed := fs.Int64("seed", 1, "")
-	ms := fs.Int("ms", 500, "")
+	ms := fs.Int("calls", 2500, "calls per goroutine")
 	_ = fs.Parse(args)
 	var res c18Result
 	switch *kind {
 	case "db":
-		res = c18DB(*dir, *seed, time.Duration(*ms)*time.Millisecond)
+		res = c18DB(*dir, *seed, *ms)
 	case "sstable":
-		res = c18SST(*dir, *seed, time.Duration(*ms)*time.Millisecond)
+		res = c18SST(*dir, *seed, *ms*2)
 	case "mmap":
-		res = c18MMap(*dir, *seed, time.Duration(*ms)*time.Millisecond)
+		res = c18MMap(*dir, *seed, *ms*2)
 	}
 	b, _ := json.Marshal(res)
 	fmt.Println(string(b))
@@ -209,7 +208,7 @@ func (m *mism) add(f string, a ...any) {
 	m.mu.Unlock()
 }
 
-func c18DB(dir string, seed int64, d time.Duration) c18Result {
+func c18DB(dir string, seed int64, perG int) c18Result {
 	r := rand.New(rand.NewSource(seed))
 	opts := dbOptSet{Memstore: uint64(40 + r.Intn(200)), Threshold: r.Intn(3), MaxSize: gen.Pick(r, uint64(500), 1<<40), Ratio: 0.2, ReadBuf: 4096, WriteBuf: 4096,
 		Live: true, IntervalMs: 1, IntervalUs: gen.Pick(r, 50, 300, 1000)}
@@ -235,7 +234,6 @@ func c18DB(dir string, seed int64, d time.Duration) c18Result {
 	var cmu sync.Mutex
 	var firstErr error
 	var wg sync.WaitGroup
-	stop := time.Now().Add(d)
 	for g := 0; g < 8; g++ {
 		wg.Add(1)
 		gs := r.Int63()
@@ -244,7 +242,7 @@ func c18DB(dir string, seed int64, d time.Duration) c18Result {
 			gr := rand.New(rand.NewSource(gs))
 			own := map[string]string{}
 			n := int64(0)
-			for i := 0; time.Now().Before(stop); i++ {
+			for i := 0; i < perG; i++ {
 				k := fmt.Sprintf("g%d-k%d", g, gr.Intn(4))
 				var err error
 				switch x := gr.Intn(100); {
@@ -305,7 +303,7 @@ func c18DB(dir string, seed int64, d time.Duration) c18Result {
 	return res
 }
 
-func c18SST(dir string, seed int64, d time.Duration) c18Result {
+func c18SST(dir string, seed int64, perG int) c18Result {
 	r := rand.New(rand.NewSource(seed))
 	keys := gen.AscendingKeys(r, 200+r.Intn(800), gen.Pick(r, 0, 1, 3))
 	var kvs []kv
@@ -356,7 +354,6 @@ func c18SST(dir string, seed int64, d time.Duration) c18Result {
 	var calls int64
 	var cmu sync.Mutex
 	var wg sync.WaitGroup
-	stop := time.Now().Add(d)
 	ng := 8 + r.Intn(9)
 	for g := 0; g < ng; g++ {
 		wg.Add(1)
@@ -365,7 +362,7 @@ func c18SST(dir string, seed int64, d time.Duration) c18Result {
 			defer wg.Done()
 			gr := rand.New(rand.NewSource(gs))
 			n := int64(0)
-			for time.Now().Before(stop) {
+			for it := 0; it < perG; it++ {
 				var p []byte
 				if gr.Intn(3) == 0 {
 					p = gen.Bytes(gr, 1+gr.Intn(6))
@@ -451,7 +448,7 @@ func c18SST(dir string, seed int64, d time.Duration) c18Result {
 	return res
 }
 
-func c18MMap(dir string, seed int64, d time.Duration) c18Result {
+func c18MMap(dir string, seed int64, perG int) c18Result {
 	r := rand.New(rand.NewSource(seed))
 	comp := r.Intn(4)
 	var recs [][]byte
@@ -485,7 +482,6 @@ func c18MMap(dir string, seed int64, d time.Duration) c18Result {
 	var calls int64
 	var cmu sync.Mutex
 	var wg sync.WaitGroup
-	stop := time.Now().Add(d)
 	ng := 8 + r.Intn(9)
 	for g := 0; g < ng; g++ {
 		wg.Add(1)
@@ -494,7 +490,7 @@ func c18MMap(dir string, seed int64, d time.Duration) c18Result {
 			defer wg.Done()
 			gr := rand.New(rand.NewSource(gs))
 			c := int64(0)
-			for time.Now().Before(stop) {
+			for it := 0; it < perG; it++ {
 				if gr.Intn(2) == 0 {
 					i := gr.Intn(len(offs))
 					got, err := mr.ReadNextAt(offs[i])
